@@ -126,6 +126,11 @@ class Pool:
         # (the integer image is as large as the float one: masks of integer type - annuli, compounds - lie fully inside it)
         self.images = [nrng.normal(0, 1, (int(cr[1]) + 90, int(cr[0]) + 90)), nrng.integers(1, 9, (int(cr[1]) + 90, int(cr[0]) + 90)).astype(np.int32),
                        nrng.normal(0, 1, (int(cr[1]) + 90, int(cr[0]) + 90)) * u.Jy]
+        # the float image has dead / saturated pixels (NaN, +-inf) like real detector data: they are the caller's, too
+        bad = nrng.random(self.images[0].shape)
+        self.images[0][bad < 0.02] = np.nan
+        self.images[0][(bad > 0.02) & (bad < 0.03)] = np.inf
+        self.images[0][(bad > 0.03) & (bad < 0.035)] = -np.inf
         # a masked image that carries its own fill value (bad pixels flagged by the caller)
         self.images.append(np.ma.MaskedArray(nrng.normal(0, 1, (int(cr[1]) + 20, int(cr[0]) + 20)), mask=nrng.random((int(cr[1]) + 20, int(cr[0]) + 20)) < 0.05,
                                              fill_value=-999.0))
